@@ -34,6 +34,7 @@ def run(ctx):
     ctx.rule(default_key)
     ctx.rule(loader)
     ctx.rule(nothing_pending)
+    ctx.rule(no_process_state)
 
 
 def _std(prog):
@@ -366,9 +367,30 @@ def save_structure(ctx, R="R-C17-save-guard"):
     ctx.check(ok, R3, f, tr[0] if tr else MISSING(npz), "a missing archive is tolerated (IOError caught) and nothing else is swallowed")
 
 
+def no_process_state(ctx, R="R-C17-loader"):
+    """what an instance loads is what the file holds when it is constructed, and what it saves is what it accumulated: no method
+    of Standardize goes through a memoised reader or keeps anything in class- or module-level containers (a statistics file read
+    once per process would hide every later save to the same path; an array shared between instances is updated in place by accumulate)"""
+    from .c20 import no_shared_state
+    prog = ctx.prog
+    c = _std(prog)
+    n = 0
+    for fi in prog.functions.values():
+        if fi.cls is c and fi.parent is None:
+            n += 1
+            no_shared_state(ctx, R, fi, "Standardize.%s" % fi.name, allow_self=True)
+    ctx.floor(R + "/methods", n, 8)
+
+
 def default_key(ctx, R="R-C17-default-key"):
     prog = ctx.prog
     f = prog.own_method(_std(prog), "save")
+    # a save without key must reach the search for an unused arr_<k>: the parameter's default is None
+    kd = f.defaults.get("key")
+    ctx.check(kd is None or (isinstance(kd, ast.Constant) and kd.value is None), R, f, f.node,
+              "a save without key looks for the first unused arr_<k> (the key parameter defaults to None)",
+              "save's key defaults to %s: a save without key into an archive that already holds that entry replaces it instead of being added under the next unused arr_<k>"
+              % (astq.text(kd) if kd is not None else None), robust=True)
     ks = [n for n in f.body_nodes() if isinstance(n, ast.If) and astq.text(n.test) == "key is None"]
     ctx.need(len(ks) == 1, R, "`if key is None` not found in save")
     blk = ks[0]
